@@ -2253,8 +2253,15 @@ static vbi_bool vbi_proxyd_take_message( PROXY_CLNT *req, VBIPROXY_MSG * pMsg )
             }
             else if (pBody->chn_notify_req.notify_flags & VBI_PROXY_CHN_TOKEN)
             {
-               req->chn_state.token_state = REQ_TOKEN_RETURNED;
-               chn_upd = TRUE;
+               /* only the client which holds the token can return it
+               ** (else two clients would own the token afterwards) */
+               if ( (req->chn_state.token_state == REQ_TOKEN_GRANTED) ||
+                    (req->chn_state.token_state == REQ_TOKEN_RECLAIM) ||
+                    (req->chn_state.token_state == REQ_TOKEN_RELEASE) )
+               {
+                  req->chn_state.token_state = REQ_TOKEN_RETURNED;
+                  chn_upd = TRUE;
+               }
             }
 
             if (chn_upd)
